@@ -38,6 +38,10 @@ var requests = map[string]map[string][]string{
 	"camA":   {"camera": {"audio"}},
 	"low":    {"": {"video-low"}},
 	"screen": {"screenshare": {"video"}},
+	// everything except screenshares: an explicit empty list for a label must
+	// not fall back to the default
+	"noscreen": {"": {"audio", "video"}, "screenshare": {}},
+	"nocam":    {"": {"audio"}, "camera": {}},
 }
 
 type op struct {
@@ -142,9 +146,9 @@ func (w *world) Ops() []seqx.Op {
 			}
 			continue
 		}
-		rs := []string{"all", "camA", "low"}
+		rs := []string{"all", "camA", "low", "nocam"}
 		if full {
-			rs = []string{"all", "camA", "low", "screen", "none"}
+			rs = []string{"all", "camA", "low", "screen", "none", "noscreen", "nocam"}
 		}
 		for _, r := range rs {
 			if r != sb.request {
@@ -403,7 +407,7 @@ func (w *world) Apply(x seqx.Op) *core.Violation {
 	case "request":
 		r := map[string]any{}
 		for l, ks := range requests[o.Arg] {
-			var a []any
+			a := []any{}
 			for _, k := range ks {
 				a = append(a, k)
 			}
@@ -482,7 +486,17 @@ func (w *world) Apply(x seqx.Op) *core.Violation {
 		case <-done:
 		case <-time.After(2 * time.Second):
 		}
-		obs = w.w.Send(o.C, sig.Msg{"type": "answer", "id": o.Arg, "sdp": ans.SDP})
+		// no candidates and no end-of-candidates: the server's ICE agent then
+		// waits for trickled candidates (for longer than a world lives)
+		// instead of failing at once from one of pion's own goroutines
+		var lines []string
+		for _, l := range strings.Split(pc.LocalDescription().SDP, "\r\n") {
+			if strings.HasPrefix(l, "a=candidate") || strings.HasPrefix(l, "a=end-of-candidates") {
+				continue
+			}
+			lines = append(lines, l)
+		}
+		obs = w.w.Send(o.C, sig.Msg{"type": "answer", "id": o.Arg, "sdp": strings.Join(lines, "\r\n")})
 	case "kick":
 		obs = w.w.Send(2, sig.Msg{"type": "useraction", "kind": "kick", "source": "c2", "username": "alice", "dest": "c0", "value": "out"})
 		w.pubIn = ""
@@ -660,6 +674,18 @@ func main() {
 		replay(o.Replay)
 		return
 	}
+	if os.Getenv("C07_DETERMINISM") != "" {
+		for pn, pre := range presets() {
+			c := cfg("full")
+			c.Prefix = pre
+			if s := seqx.Determinism(c, 3, 3000); s != "" {
+				fmt.Println("preset", pn, "diverges:", s)
+				os.Exit(1)
+			}
+			fmt.Println("preset", pn, "deterministic")
+		}
+		return
+	}
 	if o.Shard < 0 {
 		core.RunShards(res, core.NCPU(), nil, nil)
 		res.Assume("tracks appear through the real OnTrack closure with synthetic remote tracks (no media flows); subscribers answer with a standard pion client; queues are drained after every message, delayed pushes fire at explicit later points")
@@ -668,7 +694,15 @@ func main() {
 	job := 0
 	agg := map[string]*core.Sub{}
 	for _, a := range []string{"small", "full"} {
-		for pname, pre := range presets() {
+		// NOTE: every shard must enumerate the jobs in the same order
+		ps := presets()
+		pnames := make([]string, 0, len(ps))
+		for n := range ps {
+			pnames = append(pnames, n)
+		}
+		sort.Strings(pnames)
+		for _, pname := range pnames {
+			pre := ps[pname]
 			if a == "full" && pname != "empty" && core.Quick() {
 				continue
 			}
